@@ -66,7 +66,7 @@ def make_file(r, n, nonascii=False):
             for q in range(nv):
                 v = "%s%d_%d" % (k[:2], i, q)
                 if fmt == "gff3" and r.random() < 0.3:
-                    v += r.choice([";", ",", "=", "%", " x", "\té", "&"])
+                    v += r.choice([";", ",", "=", "%", " x", "\té", "&", "+", " 1 151 +", "a+/b+"])
                 elif fmt != "gff3" and quoted and r.random() < 0.3:
                     # GTF has no escaping: characters that GFF3 would percent-encode are stored and printed as they are
                     v += r.choice(["=", "%", "&", "%25", "%2C", " x"])
